@@ -420,6 +420,19 @@ def fam_history(case):
     nl = bin(mask).count("1")
     assigns = _hist_assignments(nl, variant)
     linksets = [_links_from(n, mask, a) for a in assigns]
+    k = len(updates)
+    plans = [list(pre) + [last]
+             for pre in itertools.product(BLOCKS, repeat=k)
+             for last in MAXIMAL]
+    # states of the history tree owned by this case: the prefixes that
+    # contain all k updates (shorter prefixes belong to the case of the
+    # shorter update sequence) = choices of the k inner blocks x the 7
+    # prefixes of the final block
+    return _history(n, linksets, updates, plans, len(BLOCKS) ** (k + 1),
+                    (n, mask))
+
+
+def _history(n, linksets, updates, plans, states, ident):
     mats = [np.array(C.matrix_of(n, lk)) for lk in linksets]
     viol, stats = [], {}
     # twins: a fresh network per assignment, itself held to the exact model
@@ -472,9 +485,8 @@ def fam_history(case):
                     skip = R_DERIVED
         return got
 
-    for pre in itertools.product(BLOCKS, repeat=k):
-        for last in MAXIMAL:
-            blocks = list(pre) + [last]
+    for blocks in plans:
+        if True:
             try:
                 net = _mk(n, linksets[0])
             except Exception as ex:
@@ -539,23 +551,216 @@ def fam_history(case):
                     cur, last_mut = u, "update_resistances"
                     seen_abs.add((cur, memo))
                     check_stateless(net, cur, last_mut)
-    # states of the history tree owned by this case: the prefixes that
-    # contain all k updates (shorter prefixes belong to the case of the
-    # shorter update sequence) = choices of the k inner blocks x the 7
-    # prefixes of the final block
-    states = len(BLOCKS) ** (k + 1)
     stats["abstract_states_(current,memo)"] = len(seen_abs)
     stats["operations_executed_incl_replayed_prefixes"] = transitions
     return {"viol": viol, "evals": ev, "stats": stats,
-            "sig": (n, mask, tuple(updates), tuple(sorted(set(obs)))),
+            "sig": (ident, tuple(updates), tuple(sorted(set(obs)))),
             "trivial": False, "states": states,
             "transitions": states - (1 if k == 0 else 0),
             "traces": traces,
             "excluded": {}}
 
 
-FAMILIES = {"circuit": fam_circuit, "laws": fam_laws, "complex": fam_complex,
-            "history": fam_history}
+# --- scale -------------------------------------------------------------------
+
+BUILDERS = {"ring": C.ring_chords, "tree": C.heap_tree,
+            "ladder": C.ladder_tail, "chain": C.chain}
+UNIFORM = [(), ("A",), ("D",), ("A", "D"), ("D", "A")]
+EXACT_MAX = 25
+LG = "large"
+
+
+def _scale_net(builder, n):
+    nn, links = BUILDERS[builder](n)
+    what = "%s network, %d nodes, %d links" % (builder, n, len(links))
+    viol = []
+    ref = C.np_model(n, links)
+    E = ref["ER"]
+    if n <= EXACT_MAX:
+        ER = C.effective_resistance_matrix(n, links)
+        Ex = np.array([[float(x) for x in r] for r in ER])
+        assert np.allclose(E, Ex, rtol=1e-10, atol=1e-12), \
+            "float64 reference disagrees with the rational model"
+        assert C.foster_sum(n, links, ER) == n - 1
+        E, rt = Ex, 1e-9
+    else:
+        rt = 1e-8
+    full = n <= 64
+    rows = list(range(n)) if full else sorted(
+        set([0, 1, 2, n // 2, n - 3, n - 2, n - 1]) | set(range(0, n, 17)))
+    net = _mk(n, links)
+    ev = 1
+    exc = {}
+    # --- root of everything else: the pseudo-inverse the object keeps
+    Rlib = np.asarray(net.get_R(), dtype=float)
+    P = ref["pinv"]
+    if Rlib.shape != (n, n) or not np.all(
+            np.abs(Rlib - P) <= 1e-8 * (1 + ref["rmax"])):
+        c = float(np.mean(Rlib - P)) if Rlib.shape == (n, n) else 0.0
+        if not abs(c) > 1e6 * (1 + ref["rmax"]):
+            viol.append(V("ResNetwork.get_R:value:real:" + LG, what,
+                          float(np.max(np.abs(Rlib))), ref["rmax"]))
+            return {"viol": viol, "evals": ev, "sig": (builder, n, "R")}
+        # recognised form: the null space of the Laplacian was inverted
+        # (a constant of order 1/(N*eps) added to every entry).  The
+        # consequences on the unmodified object go into the message; they
+        # are explained by this root cause as long as they stay within the
+        # rounding of numbers of that magnitude.
+        slack = 64 * 2.0 ** -53 * abs(c)
+        i, j = sorted(links)[len(links) // 2]
+        er = net.effective_resistance(i, j)
+        fo = sum(net.effective_resistance(a, b) / float(r)
+                 for (a, b), r in links.items())
+        m = n // 2
+        vc = net.vertex_current_flow_betweenness(m)
+        viol.append(V(
+            "ResNetwork.get_R:value:null-space-inverted", "%s: max|R| = %.3g "
+            "instead of %.3g (pinv with the default cut-off inverts the zero "
+            "singular value); on this object effective_resistance(%d,%d) = "
+            "%.12g (exact %.12g), Foster sum = %.12g (exact %d), "
+            "vertex_current_flow_betweenness(%d) = %.6g (exact %.6g)" % (
+                what, np.max(np.abs(Rlib)), ref["rmax"], i, j, er, E[i, j],
+                fo, n - 1, m, vc, ref["vcfb"][m]),
+            float(np.max(np.abs(Rlib))), ref["rmax"]))
+        if not abs(er - E[i, j]) <= slack + rt * E[i, j] or \
+                not abs(fo - (n - 1)) <= slack * sum(
+                    1 / float(r) for r in links.values()) + rt * n:
+            viol.append(V("ResNetwork.effective_resistance:value:real:" + LG,
+                          "%s: beyond the rounding explained by the "
+                          "ill-conditioned pseudo-inverse" % what,
+                          [er, fo], [E[i, j], n - 1]))
+        # everything derived is then judged on the exact pseudo-inverse
+        from scipy import sparse
+        net.sparse_R = sparse.lil_matrix(P)
+        what += " (object's pseudo-inverse replaced by the exact one)"
+        exc["derived measures judged after replacing an ill-conditioned "
+            "pseudo-inverse"] = 1
+    L = np.full((n, n), np.nan)
+    for a in rows:
+        for b in range(n):
+            L[a, b] = net.effective_resistance(a, b)
+            if not full:
+                L[b, a] = net.effective_resistance(b, a)
+    for (i, j) in links:
+        if np.isnan(L[i, j]):
+            L[i, j] = net.effective_resistance(i, j)
+            L[j, i] = net.effective_resistance(j, i)
+    known = ~np.isnan(L)
+    ev += int(known.sum())
+    bad = known & ~(np.abs(L - E) <= rt * np.abs(E) + 1e-12)
+    if np.any(bad):
+        a, b = np.argwhere(bad)[0]
+        viol.append(V("ResNetwork.effective_resistance:value:real:" + LG,
+                      "%s pair (%d,%d)" % (what, a, b), L[a, b], E[a, b]))
+    tol = 1e-9 * max(1.0, float(np.nanmax(np.abs(L))))
+    both = known & known.T
+    if np.any(np.abs(np.where(both, L - L.T, 0)) > tol):
+        viol.append(V("ResNetwork.effective_resistance:law:symmetry:" + LG,
+                      what, None, None))
+    if np.any(np.diag(L)[rows] != 0):
+        viol.append(V("ResNetwork.effective_resistance:law:zero-self:" + LG,
+                      what, None, 0))
+    off = known & ~np.eye(n, dtype=bool)
+    if np.any(L[off] <= 0):
+        viol.append(V("ResNetwork.effective_resistance:law:positivity:" + LG,
+                      what, float(np.min(L[off])), "> 0"))
+    foster = sum(L[i, j] / float(r) for (i, j), r in links.items())
+    ev += 1
+    if not _close(foster, n - 1, rtol=rt):
+        viol.append(V("ResNetwork.effective_resistance:law:foster:" + LG,
+                      what, foster, n - 1))
+    for (i, j), r in links.items():
+        if L[i, j] > float(r) * (1 + 1e-9):
+            viol.append(V("ResNetwork.effective_resistance:law:path-bound:"
+                          + LG, "%s link (%d,%d)" % (what, i, j), L[i, j],
+                          float(r)))
+            break
+    if full:
+        for b in range(n):
+            ev += n * n
+            if np.any(L > L[:, [b]] + L[[b], :] + tol):
+                viol.append(V("ResNetwork.effective_resistance:law:triangle:"
+                              + LG, what, None, "R_ac <= R_ab + R_bc"))
+                break
+        low = [L[i, j] for i in range(n) for j in range(i)]
+        _cmp(viol, net, "average_effective_resistance", (),
+             2 * sum(low) / (n * (n - 1)), what, RT, AT)
+        _cmp(viol, net, "diameter_effective_resistance", (), max(low), what,
+             RT, AT)
+        for a in (0, n - 1):
+            _cmp(viol, net, "effective_resistance_closeness_centrality",
+                 (a,), (n - 1) / sum(L[a, i] for i in range(n)), what, RT, AT)
+        ev += 4
+    nv = len(viol)
+    _cmp(viol, net, "get_admittance", (), ref["Y"], what, RT, AT)
+    _cmp(viol, net, "admittive_degree", (), ref["ad"], what, RT, AT)
+    _cmp(viol, net, "average_neighbors_admittive_degree", (), ref["anad"],
+         what, RT, AT)
+    _cmp(viol, net, "local_admittive_clustering", (), ref["lac"], what, RT,
+         AT)
+    ev += 4
+    rmax, ad = ref["rmax"], ref["ad"]
+    for i in (range(n) if full else rows):
+        ev += 1
+        _cmp(viol, net, "vertex_current_flow_betweenness", (i,),
+             ref["vcfb"][i], what, 2e-5, 2e-6 + 4 * EPS32 * rmax * ad[i])
+    ev += 1
+    try:
+        got = np.asarray(net.edge_current_flow_betweenness(), dtype=float)
+        atol = 2e-6 + 4 * EPS32 * rmax * ref["Y"]
+        if got.shape != (n, n) or not np.all(np.isfinite(got)) or np.any(
+                np.abs(got - ref["ecfb"]) > atol + 2e-5 * ref["ecfb"]):
+            k_ = np.argwhere(~(np.abs(got - ref["ecfb"]) <= atol + 2e-5 *
+                               ref["ecfb"]))[0] if got.shape == (n, n) \
+                else (0, 0)
+            viol.append(V("ResNetwork.edge_current_flow_betweenness:value:"
+                          "real", "%s link %s" % (what, tuple(k_)),
+                          got[tuple(k_)] if got.shape == (n, n) else got.shape,
+                          ref["ecfb"][tuple(k_)]))
+    except Exception as ex:
+        viol.append(V("ResNetwork.edge_current_flow_betweenness:raises:"
+                      "connected", "%s %r" % (what, ex), repr(ex), None))
+    # keys of this family carry the size class
+    for v in viol[nv:]:
+        if not v["key"].endswith(LG):
+            v["key"] += ":" + LG
+    return {"viol": viol, "evals": ev, "excluded": exc,
+            "sig": (builder, n, round(float(E[0, n - 1]), 9),
+                    round(float(ref["vcfb"][n // 2]), 9))}
+
+
+def _scale_hist(updates):
+    n, links0 = C.ring_chords(12)
+    keys = sorted(links0)
+    linksets = [{k_: ALPHA[f(i)] for i, k_ in enumerate(keys)}
+                for f in HIST_ASSIGN]
+    k = len(updates)
+    plans = [[b] * (k + 1) for b in UNIFORM]
+    # owned states: for every uniform plan the prefixes of its final block
+    states = sum(1 + len(b) for b in UNIFORM)
+    return _history(n, linksets, updates, plans, states, ("ring12",))
+
+
+def fam_scale(case):
+    if case[0] == "net":
+        try:
+            return _scale_net(case[1], case[2])
+        except AssertionError:
+            raise
+        except Exception as ex:
+            import traceback
+            tb = traceback.extract_tb(ex.__traceback__)
+            lib = [f for f in tb if "pyunicorn" in f.filename]
+            if not lib:
+                raise
+            return {"viol": [V("ResNetwork.%s:raises:connected:%s" % (
+                lib[-1].name, LG), "%s: %r" % (case, ex), repr(ex),
+                "a value")], "evals": 1, "sig": "raises"}
+    return _scale_hist(case[1])
+
+
+FAMILIES = {"scale": fam_scale, "circuit": fam_circuit, "laws": fam_laws,
+            "complex": fam_complex, "history": fam_history}
 
 
 # ---------------------------------------------------------------------------
@@ -652,6 +857,20 @@ def run(ctx):
     cases.sort(key=lambda c: (len(c[3]), c[0]))
     ctx.explore("history", cases, chunk=1, desc="update_resistances "
                 "histories x query blocks vs fresh twin")
+    # scale: fixed list of larger structured networks, simplest first
+    C.selfcheck_np()
+    sizes = [9, 12, 23, 40] + ([130, 190] if thorough else [])
+    cases = [["net", b, n] for n in sizes for b in ("ladder", "ring", "tree")]
+    cases += [["net", "chain", n] for n in (21, 24, 25, 26, 34)]
+    cases.sort(key=lambda c: c[2])
+    for k in range(5):
+        for ups in itertools.product(range(3), repeat=k):
+            cases.append(["hist", list(ups)])
+    ctx.explore("scale", cases, chunk=1, desc="ladders / rings with chords / "
+                "trees of 9..40 (thorough ..190) nodes; update histories of "
+                "depth <=4 on a 12-node ring with chords")
+    ctx.notes["scale_sizes"] = sizes
+    ctx.notes["scale_history_depth"] = 4
     ctx.notes.update({
         "circuit_nodes": "2..5", "alphabet": "1/2, 1, 2",
         "history_depth_updates": 2, "history_query_block": 2,
